@@ -54,6 +54,8 @@ func (g *ugen) leaf() any {
 		return map[string]any{"const": json.Number("1")}
 	case 3:
 		return map[string]any{"type": "string"}
+	case 4:
+		return map[string]any{}
 	default:
 		return true
 	}
